@@ -233,6 +233,14 @@ def run(ctx):
             if op == "**" and cf not in ("float64", "float32") and not cf.startswith("complex"):
                 ctx.violation("pow-not-floating", "%s ** %s has type %s (documented: `**` yields a floating-point value)" % (t1, t2, cf), {"case_dir": root})
             result_type[(t1, t2, op)] = cf
+            small = {"int8": 8, "uint8": 8, "int16": 16, "uint16": 16}
+            if t1 in small and t2 in small and cf in INT_RANGE and (op in ("+", "-") or (op == "*" and small[t1] == 8 and small[t2] == 8)):
+                (lo1, hi1), (lo2, hi2) = INT_RANGE[t1], INT_RANGE[t2]
+                ext = [f(a, b) for a in (lo1, hi1) for b in (lo2, hi2) for f in ({"+": lambda x, y: x + y, "-": lambda x, y: x - y, "*": lambda x, y: x * y}[op],)]
+                lo, hi = INT_RANGE[cf]
+                if min(ext) < lo or max(ext) > hi:
+                    ctx.violation("result-type-too-narrow:%s" % opn, "%s %s %s has static type %s, which cannot hold the exact result for all operand values (range %d..%d) although int32 can" % (
+                        t1, op, t2, cf, min(ext), max(ext)), {"case_dir": root})
     ctx.sample({"accepted": len(accepted), "rejected": len(table) - len(accepted), "examples": {"%s%s%s" % (k[0], k[2], k[1]): v for k, v in list(result_type.items())[:12]}})
 
     # ---- (2) values
